@@ -64,14 +64,14 @@ CHECKS = {
         design="5-C09"),
     "C14": dict(
         engine="E5-services",
-        technique="Coq proof (lifecycle state machine: start idempotent, NO_TRACE never writes hooks over all op sequences and faults, shutdown restores the pre-start hooks and attempts every step for every fault oracle, inert afterwards; unguarded discipline refuted) + in-Coq correspondence with the real Deep/TriggerHandler start/shutdown",
-        text="7 Coq theorems over Lifecycle.v: a repeated start is the identity; with tracing disabled no sequence of agent "
+        technique="Coq proof over functions REGENERATED from /repo/src by a fail-closed Python-ast translator (pure.py) and proved equal to the model + Coq proof (lifecycle state machine: start idempotent, NO_TRACE never writes hooks over all op sequences and faults, shutdown restores the pre-start hooks and attempts every step for every fault oracle, inert afterwards; unguarded discipline refuted) + in-Coq correspondence with the real Deep/TriggerHandler start/shutdown",
+        text="13 Coq theorems over Lifecycle.v: a repeated start is the identity; with tracing disabled no sequence of agent "
              "operations with any faults changes either hook register; start followed by shutdown leaves both registers as "
              "they were, whatever fails, with polling stopped, started=false and the handler inert; a shutdown of a started "
              "agent attempts hooks, drain, stop-poll and EVERY plugin in order for every fault oracle; an inert handler acts "
              "on nothing and a later start re-enables it; the unguarded step sequence is refuted by a checked witness. Tied "
              "to the code by op sequences on the real Deep object with fault-raising doubles for flush / poller / plugins, "
-             "hooks read with sys.gettrace / threading.gettrace, an event delivered in another thread after every step.",
+             "hooks read with sys.gettrace / threading.gettrace, an event delivered in another thread after every step. Tie T2: TriggerHandler.start / shutdown are translated from source on every run (coq/gen/PHooks.v) and proved to be the handler part of the model's start / shutdown; C14_the_code_restores_the_hooks is stated over the translated code.",
         note="Trusted: Coq kernel+VM; harness; 'fail' = raise (a peer that never answers is liveness, outside the model); gRPC "
              "channel, poller, delivery replaced by doubles; the host does not replace the agent's hooks while it owns them.",
         design="5-C14"),
